@@ -142,7 +142,8 @@ fn false_case<S: HasComponent<Component>>(
     original_token: token::Token,
     input: &mut vm::ExpansionInput<S>,
 ) -> txl::Result<()> {
-    let mut depth = 0;
+    // A 64-bit counter: the depth is bounded only by the number of tokens in the input.
+    let mut depth = 0_i64;
     loop {
         let token = input
             .unexpanded()
@@ -300,7 +301,8 @@ fn if_case_primitive_fn<S: HasComponent<Component>>(
         return Ok(());
     }
     let mut cases_left_to_skip = total_cases_to_skip;
-    let mut depth = 0;
+    // A 64-bit counter: the depth is bounded only by the number of tokens in the input.
+    let mut depth = 0_i64;
     loop {
         let token = input.unexpanded().next_or_err(IfCaseEndOfInputError {
             total_cases_to_skip,
@@ -399,7 +401,8 @@ fn or_primitive_fn<S: HasComponent<Component>>(
         return Ok(());
     }
 
-    let mut depth = 0;
+    // A 64-bit counter: the depth is bounded only by the number of tokens in the input.
+    let mut depth = 0_i64;
     loop {
         let token = input.unexpanded().next_or_err(OrEndOfInputError {})?;
         if let token::Value::CommandRef(command_ref) = &token.value() {
@@ -460,7 +463,8 @@ fn else_primitive_fn<S: HasComponent<Component>>(
     }
 
     // Now consume all of the tokens until the next \fi
-    let mut depth = 0;
+    // A 64-bit counter: the depth is bounded only by the number of tokens in the input.
+    let mut depth = 0_i64;
     loop {
         let token = input.unexpanded().next_or_err(ElseEndOfInputError {})?;
         if let token::Value::CommandRef(command_ref) = &token.value() {
